@@ -471,6 +471,8 @@ pub struct Probe {
 
 #[derive(Clone, Debug)]
 pub struct FileSnap {
+    /// index (into Trace::inds) of the Finished indication this snapshot was taken for
+    pub ind_idx: usize,
     pub t: u64,
     pub entity: usize,
     pub put: usize,
@@ -724,6 +726,7 @@ async fn run_async(sc: &Scenario, roots: Vec<PathBuf>) -> Trace {
                 if let Indication::Finished(_) = &ind {
                     if let Some((k, _, path)) = put_dst.iter().find(|(_, pid, _)| *pid == id) {
                         snap = Some(FileSnap {
+                            ind_idx: 0,
                             t,
                             entity: i,
                             put: *k,
@@ -733,8 +736,10 @@ async fn run_async(sc: &Scenario, roots: Vec<PathBuf>) -> Trace {
                 }
                 {
                     let mut g = sh.lock().unwrap();
+                    let idx = g.trace.inds.len();
                     g.trace.inds.push(IndRec { t, entity: i, ind });
-                    if let Some(s) = snap {
+                    if let Some(mut s) = snap {
+                        s.ind_idx = idx;
                         g.trace.snaps.push(s);
                     }
                 }
@@ -1177,6 +1182,21 @@ impl Trace {
                 _ => None,
             })
             .collect()
+    }
+    /// like finished_inds, with the index of each indication in `inds` (to find its file snapshot)
+    pub fn finished_inds_idx(&self, entity: usize, id: TransactionID) -> Vec<(usize, u64, &cfdp_core::daemon::FinishedIndication)> {
+        self.inds
+            .iter()
+            .enumerate()
+            .filter(|(_, r)| r.entity == entity)
+            .filter_map(|(i, r)| match &r.ind {
+                Indication::Finished(f) if f.id == id => Some((i, r.t, f)),
+                _ => None,
+            })
+            .collect()
+    }
+    pub fn snap_for(&self, ind_idx: usize) -> Option<&FileSnap> {
+        self.snaps.iter().find(|s| s.ind_idx == ind_idx)
     }
     pub fn file_at(&self, entity: usize, name: &str) -> Option<Vec<u8>> {
         std::fs::read(self.roots[entity].join(name)).ok()
